@@ -1072,7 +1072,8 @@ class HtmlBlock(BlockToken):
     @classmethod
     def start(cls, line):
         stripped = line.lstrip()
-        if len(line) - len(stripped) >= 4:
+        # indentation is measured in columns: a tab reaches the next multiple of four
+        if len(line[:len(line) - len(stripped)].expandtabs(4)) >= 4:
             return False
         # rule 1: HTML tags designed to contain literal content, allow newlines in block
         match_obj = cls.multiblock.match(stripped)
